@@ -20,7 +20,7 @@ for line in sys.stdin:
     n = os.path.basename(r['dir'].rstrip('/'))
     tag = os.path.basename(os.path.dirname(r['dir']))
     rnd = tag.split('-')[0].replace('out', 'n')       # out3 -> n3, out4 -> n4
-    if rnd in ('n6', 'n7', 'n8', 'n9', 'n10'):
+    if rnd in ('n6', 'n7', 'n8', 'n9', 'n10', 'n11'):
         n = n.lstrip('n')
     dst = '/verif/neutral/%s-%s-%s' % (prop, rnd, n)
     os.makedirs(dst, exist_ok=True)
